@@ -84,22 +84,25 @@ Theorem C19_in_range_extent_partial : forall N circ rloc f h conv grp st',
 Proof. exact area_extent_in_range. Qed.
 Print Assumptions C19_in_range_extent_partial.
 
-(* start/end inside the extent and ordered (a protocluster's core inside its own extent), under the
-   guard: sub-region, or protocluster with its core inside its extent and on the side of the origin
-   that the length - core_start < core_end test assumes *)
-Theorem C19_in_range_core_guarded : forall N circ rloc f h conv grp st',
+(* start/end inside the extent and ordered: a protocluster's core inside its own extent, on whichever
+   side of the origin it lies; start/end equal to the extent for sub-regions and candidate clusters.
+   core_wf is well-formedness only (a protocluster has a core and the core lies inside the protocluster);
+   the former guard "core on the side the length - core_start < core_end test assumes" is gone with the
+   repair of finding core_side_heuristic, and candidate clusters are covered since the repair of
+   candidate_end_unshifted. *)
+Theorem C19_in_range_core : forall N circ rloc f h conv grp st',
   wf_region N rloc -> wf_feat_ring N f -> contains rloc (floc f) = true ->
   (bridges rloc = true \/ fcrosses f = true -> circ = true) ->
-  chain_guard N f ->
+  core_wf N f ->
   add_area_from_feature rloc N (extend_over_origin rloc N circ) h (conv, grp) f = Ok st' ->
   exists added, fst st' = conv ++ added /\ Forall (fun a => chain_ok a = true) added.
 Proof. exact area_chain_in_extent. Qed.
-Print Assumptions C19_in_range_core_guarded.
+Print Assumptions C19_in_range_core.
 
 Example C19_in_range_nonvacuous :
   let f := mkFeat 0 K_Proto [mkPart 900 1000 1; mkPart 0 100 1] (Some [mkPart 950 1000 1; mkPart 0 30 1]) false 1 in
   let rloc := [mkPart 800 1000 1; mkPart 0 300 1] in
-  wf_region 1000 rloc /\ wf_feat_ring 1000 f /\ contains rloc (floc f) = true /\ chain_guard 1000 f /\
+  wf_region 1000 rloc /\ wf_feat_ring 1000 f /\ contains rloc (floc f) = true /\ core_wf 1000 f /\
   add_area_from_feature rloc 1000 (extend_over_origin rloc 1000 true) 2 ([], 0) f
   = Ok ([mkArea K_Proto 950 1030 900 1100 2 0 1], 0).
 Proof.
@@ -108,32 +111,55 @@ Proof.
   - split.
     + right. exists (mkPart 900 1000 1), (mkPart 0 100 1). cbn. repeat split; lia.
     + split; [vm_compute; reflexivity|]. split; [|vm_compute; reflexivity].
-      right. split; [reflexivity|]. eexists. split; [reflexivity|]. split; [|vm_compute; reflexivity].
-      split; [vm_compute; reflexivity|]. right.
+      intros _. eexists. split; [reflexivity|]. split; [vm_compute; reflexivity|]. right.
       exists (mkPart 950 1000 1), (mkPart 0 30 1). cbn. repeat split; lia.
 Qed.
 
-(* without the guard the core statement is false of the faithful model (finding core_side_heuristic):
-   protocluster [100,1000)+[0,50) with core [200,300) on a ring of 1000 *)
-Theorem C19_in_range_core_refuted :
-  exists N circ rloc f core st',
-    wf_region N rloc /\ wf_feat_ring N f /\ contains rloc (floc f) = true /\ circ = true /\
-    fkind f = K_Proto /\ fcore f = Some core /\ wf_core_in N f core /\
-    add_area_from_feature rloc N (extend_over_origin rloc N circ) 0 ([], 0) f = Ok st' /\
-    existsb (fun a => negb (chain_ok a)) (fst st') = true.
-Proof. exact core_side_refuted. Qed.
-Print Assumptions C19_in_range_core_refuted.
+(* formerly C19_in_range_core_refuted (finding core_side_heuristic, repaired): for EVERY protocluster
+   whose core is well-formed and inside its extent - before or after the origin, whatever
+   core_start + core_end is - the emitted start/end lie inside the emitted extent *)
+Theorem C19_in_range_core_protocluster : forall N circ rloc f core h conv grp st',
+  wf_region N rloc -> wf_feat_ring N f -> contains rloc (floc f) = true ->
+  (bridges rloc = true \/ fcrosses f = true -> circ = true) ->
+  fkind f = K_Proto -> fcore f = Some core -> wf_core_in N f core ->
+  add_area_from_feature rloc N (extend_over_origin rloc N circ) h (conv, grp) f = Ok st' ->
+  exists added, fst st' = conv ++ added /\ Forall (fun a => chain_ok a = true) added.
+Proof. exact proto_chain_in_extent. Qed.
+Print Assumptions C19_in_range_core_protocluster.
 
-(* and it is false for candidate clusters whose core does not cross the origin (finding
-   candidate_end_unshifted): the emitted area has start/end outside its extent *)
-Theorem C19_in_range_candidate_refuted :
-  exists N circ rloc f st',
-    wf_region N rloc /\ wf_feat_ring N f /\ contains rloc (floc f) = true /\ circ = true /\
-    fkind f = K_Cand /\
-    add_area_from_feature rloc N (extend_over_origin rloc N circ) 0 ([], 0) f = Ok st' /\
-    existsb (fun a => negb (chain_ok a)) (fst st') = true.
-Proof. exact candidate_chain_refuted. Qed.
-Print Assumptions C19_in_range_candidate_refuted.
+(* the recorded witnesses of core_side_heuristic now give the right coordinates: protocluster
+   [100,1000)+[0,50) with core [200,300) on a ring of 1000 (was start 1200, end 1300), and its mirror
+   [900,1000)+[0,800) with core [600,700) (was start 600, end 700 with extent 900..1800); in a
+   whole-record region the core stays on its own half *)
+Example C19_core_side_witness_repaired :
+  add_area_from_feature witness_region 1000 (extend_over_origin witness_region 1000 true) 0 ([], 0) witness_proto
+  = Ok ([mkArea K_Proto 200 300 100 1050 0 0 1], 0) /\
+  add_area_from_feature (floc witness_proto_mirror) 1000 (extend_over_origin (floc witness_proto_mirror) 1000 true)
+                        0 ([], 0) witness_proto_mirror
+  = Ok ([mkArea K_Proto 1600 1700 900 1800 0 0 1], 0) /\
+  add_area_from_feature [mkPart 0 1000 1] 1000 (extend_over_origin [mkPart 0 1000 1] 1000 true) 0 ([], 0) witness_proto
+  = Ok ([mkArea K_Proto 200 300 100 1000 0 1 1; mkArea K_Proto 0 0 0 50 0 1 0], 1).
+Proof. repeat split; vm_compute; reflexivity. Qed.
+
+(* formerly C19_in_range_candidate_refuted (finding candidate_end_unshifted, repaired): for EVERY
+   candidate cluster, whatever its core, start/end lie inside (in fact equal) the emitted extent *)
+Theorem C19_in_range_candidate : forall N circ rloc f h conv grp st',
+  wf_region N rloc -> wf_feat_ring N f -> contains rloc (floc f) = true ->
+  (bridges rloc = true \/ fcrosses f = true -> circ = true) ->
+  fkind f = K_Cand ->
+  add_area_from_feature rloc N (extend_over_origin rloc N circ) h (conv, grp) f = Ok st' ->
+  exists added, fst st' = conv ++ added /\ Forall (fun a => chain_ok a = true) added.
+Proof. exact cand_chain_in_extent. Qed.
+Print Assumptions C19_in_range_candidate.
+
+(* the witness of candidate_end_unshifted: candidate [100,1000)+[0,50) with core [400,700)
+   (was start 100, end 50 with neighbouring_end 1050; split: a half with start = end = 0) *)
+Example C19_candidate_witness_repaired :
+  add_area_from_feature witness_region 1000 (extend_over_origin witness_region 1000 true) 0 ([], 0) witness_cand
+  = Ok ([mkArea K_Cand 100 1050 100 1050 0 0 1], 0) /\
+  add_area_from_feature [mkPart 0 1000 1] 1000 (extend_over_origin [mkPart 0 1000 1] 1000 true) 0 ([], 0) witness_cand
+  = Ok ([mkArea K_Cand 100 1000 100 1000 0 1 1; mkArea K_Cand 0 50 0 50 0 1 1], 1).
+Proof. repeat split; vm_compute; reflexivity. Qed.
 
 (* at the observation point: every area returned by build_area_rows has its extent inside the announced
    range, neighbouring_start <= neighbouring_end - for every region whose sub-regions, candidate clusters
@@ -146,3 +172,33 @@ Theorem C19_build_extents_in_range : forall N circ rloc subs cands protos out,
   Forall (fun a => extent_ok (range0 rloc N) a = true) out.
 Proof. exact build_extents_in_range. Qed.
 Print Assumptions C19_build_extents_in_range.
+
+(* at the observation point, the whole chain of the property: for every area returned by build_area_rows,
+   range start <= neighbouring_start <= start <= end <= neighbouring_end <= range end - for every region
+   whose features are well-formed areas contained in the region and whose protoclusters have their core
+   inside their extent (provable without a guard since the two repairs) *)
+Theorem C19_build_chain_in_range : forall N circ rloc subs cands protos out,
+  wf_region N rloc ->
+  Forall (feat_ok_core N circ rloc) subs -> Forall (feat_ok_core N circ rloc) cands ->
+  Forall (feat_ok_core N circ rloc) protos ->
+  build_area_rows rloc N circ subs cands protos = Ok out ->
+  Forall (fun a => fst (range0 rloc N) <= a_ns a /\ a_ns a <= a_start a /\ a_start a <= a_end a /\
+                   a_end a <= a_ne a /\ a_ne a <= snd (range0 rloc N)) out.
+Proof. exact build_full_chain. Qed.
+Print Assumptions C19_build_chain_in_range.
+
+(* non-vacuity, on the two repaired witnesses together: an origin-crossing region holding the candidate
+   cluster and the protocluster whose core lies before the origin *)
+Example C19_build_chain_nonvacuous :
+  Forall (feat_ok_core 1000 true witness_region) [witness_cand] /\
+  Forall (feat_ok_core 1000 true witness_region) [witness_proto] /\
+  build_area_rows witness_region 1000 true [] [witness_cand] [witness_proto]
+  = Ok [mkArea K_Cand 100 1050 100 1050 0 0 1; mkArea K_Proto 200 300 100 1050 2 0 1].
+Proof.
+  split; [|split; [|vm_compute; reflexivity]].
+  - constructor; [|constructor]. split; [split; [apply witness_feat_wf; reflexivity|split; [vm_compute; reflexivity|auto]]|].
+    intros Hk. discriminate Hk.
+  - constructor; [|constructor]. split; [split; [apply witness_feat_wf; reflexivity|split; [vm_compute; reflexivity|auto]]|].
+    intros _. exists [mkPart 200 300 1]. split; [reflexivity|]. split; [vm_compute; reflexivity|].
+    left. exists (mkPart 200 300 1). cbn. repeat split; lia.
+Qed.
